@@ -40,6 +40,16 @@ def shards(tier, seed):
                     for f in NONTERM:
                         out.append({"id": "d%d-rw%d-l%s-%s" % (detect, rw, {False: 0, True: 1}.get(link, link), f), "detect": detect, "rw": rw, "link": link, "L": L, "first": f})
         out.append({"id": "facade-d%d" % detect, "facade": True, "detect": detect, "L": 4 if tier == "quick" else 6})
+    # the same with commands that have a data-out or a data-in phase instead of TEST UNIT READY
+    for rw in (False, True):
+        for ck in ("write", "mixed"):
+            if tier == "quick":
+                out.append({"id": "d1-rw%d-l0-%s" % (rw, ck), "detect": True, "rw": rw, "link": False, "L": L, "first": None, "cmd": ck})
+            else:
+                for f in NONTERM:
+                    out.append({"id": "d1-rw%d-l0-%s-%s" % (rw, ck, f), "detect": True, "rw": rw, "link": False, "L": L, "first": f, "cmd": ck})
+    # long quiet stretches (hundreds to thousands of commands on one device object) before the node is replaced or goes away
+    out.append({"id": "long-quiet", "long_quiet": True, "reps": 1 if tier == "quick" else 6})
     # a process without standard input (a daemon, a cron job): the device node is then opened on descriptor 0
     out.append({"id": "d1-rw0-l0-no-stdin", "detect": True, "rw": False, "link": False, "L": 3 if tier == "quick" else 4, "first": None, "no_stdin": True})
     out.append({"id": "iscsi", "iscsi": True})
@@ -119,7 +129,7 @@ class World:
         self.sg.handler = lambda ev: (self.status, self.sense)
 
 
-def run_sequence(ctx, w, seq, term, detect, rw, link=False, facade=False):
+def run_sequence(ctx, w, seq, term, detect, rw, link=False, facade=False, cmdkind="tur"):
     import pyscsi.pyscsi.scsi_enum_command as E
     from pyscsi.pyscsi.scsi import SCSI
     from pyscsi.pyscsi.scsi_cdb_testunitready import TestUnitReady
@@ -135,7 +145,8 @@ def run_sequence(ctx, w, seq, term, detect, rw, link=False, facade=False):
     w.sg.log = []
     w.sg.pre_hooks = []
     cfg = "detect_%s" % ("on" if detect else "off")
-    wit = {"sequence": seq + term, "detect": detect, "readwrite": rw, "node_is_symlink": link, "through_facade": facade}
+    wit = {"sequence": (seq if len(seq) < 40 else "%s...(%d events)...%s" % (seq[:8], len(seq), seq[-12:])) + term, "detect": detect, "readwrite": rw, "node_is_symlink": link,
+           "through_facade": facade, "commands": cmdkind}
     state = {"exists": True, "original": None, "pending_close_failure": False, "pending_open_failure": False, "handle_lost": False, "reached": 0}
 
     def fail(mech, msg):
@@ -232,7 +243,20 @@ def run_sequence(ctx, w, seq, term, detect, rw, link=False, facade=False):
             w.status, w.sense = (0, None) if evn in "Ee" else (2, SN.build(cc[0], 0, cc[1], cc[2], cc[3], 18 if cc[0] < 0x72 else 8))
             before = state["reached"]
             armed_close, armed_open = w.fail_next_close, w.fail_next_open
-            cmd = TestUnitReady(E.spc.TEST_UNIT_READY)
+            ck = cmdkind if cmdkind != "mixed" else ("tur", "write", "read", "write")[(len(seq) * 3 + pos * 5 + seq.count("E")) % 4]
+            if ck == "write":
+                # a command with a data-out phase (WRITE(10) of one block) / a data-in phase (INQUIRY)
+                from pyscsi.pyscsi.scsi_cdb_write10 import Write10
+
+                cmd = Write10(E.sbc.WRITE_10, 512, 7 + pos, 1, bytearray(512))
+                ctx.count("data_out_commands")
+            elif ck == "read":
+                from pyscsi.pyscsi.scsi_cdb_inquiry import Inquiry
+
+                cmd = Inquiry(E.spc.INQUIRY, alloclen=96)
+                ctx.count("data_in_commands")
+            else:
+                cmd = TestUnitReady(E.spc.TEST_UNIT_READY)
             try:
                 if raw:
                     ctx.count("raw_sense_executes")
@@ -306,7 +330,12 @@ def run_sequence(ctx, w, seq, term, detect, rw, link=False, facade=False):
             if state["exists"] or not detect:
                 quiescent("after re-attach")
         elif evn == "R":
-            devnode.replug(node)
+            # the ways a name gets another node: renamed over, the old node moved aside first (it lives on under another name),
+            # the old node having a second name of its own
+            rk = devnode.REPLUG_KINDS[(len(seq) + pos * 2 + seq.count("R")) % len(devnode.REPLUG_KINDS)]
+            devnode.replug(node, rk)
+            if not link:
+                ctx.add("replug_kinds", rk)
             state["exists"] = True
             disturbed = True
         elif evn == "U":
@@ -317,7 +346,7 @@ def run_sequence(ctx, w, seq, term, detect, rw, link=False, facade=False):
             state["exists"] = False
             disturbed = True
         elif evn == "X":
-            devnode.replug(node)
+            devnode.replug(node, devnode.REPLUG_KINDS[(len(seq) + pos) % len(devnode.REPLUG_KINDS)])
             state["exists"] = True
             w.fail_next_close = True
             state["pending_close_failure"] = True
@@ -633,6 +662,24 @@ def run(shard, ctx):
                     ctx.count("sequences")
         ctx.add("sequence_max_length", shard["L"])
         return
+    if shard.get("long_quiet"):
+        from vmon import srcdict
+
+        # (lengths the library's source mentions are among them: a threshold written down there is crossed)
+        quiet = sorted({40, 129, 257, 1030, 4100} | {v + d for v in srcdict.small(5000) if v >= 16 for d in (0, 1)} | {v + d for v in srcdict.novel_small(20000) for d in (0, 1, 2)})
+        if len(quiet) > 40:
+            quiet = quiet[:: len(quiet) // 40 + 1] + quiet[-1:]
+        for rep in range(shard["reps"]):
+            for n in quiet:
+                for ev in "RUX":
+                    for link in (False, True):
+                        seq = "E" * (n + rep) + ev + "EEEEEEEEE"
+                        nt = run_sequence(ctx, w, seq, "C", True, bool((n + rep) % 2), link, False, ("tur", "mixed")[rep % 2])
+                        ctx.case(("long-quiet", n + rep, ev, link), bool(nt))
+                        ctx.count("sequences")
+                        ctx.count("long_quiet_sequences")
+                        ctx.add("quiet_commands_before_the_event", n + rep)
+        return
     detect, rw, L = shard["detect"], shard["rw"], shard["L"]
     link = shard.get("link", False)
     if link == "chardev":
@@ -648,7 +695,7 @@ def run(shard, ctx):
                     continue
             seq = "".join(tup)
             for term in TERM:
-                nt = run_sequence(ctx, w, seq, term, detect, rw, link)
+                nt = run_sequence(ctx, w, seq, term, detect, rw, link, False, shard.get("cmd", "tur"))
                 ctx.case((detect, rw, link, seq, term), bool(nt), sample={"detect": detect, "readwrite": rw, "node_is_symlink": link, "sequence": seq + term} if ctx.want_sample() else None)
                 ctx.count("sequences")
     ctx.add("sequence_max_length", L)
